@@ -303,10 +303,10 @@ Fixpoint rle_aux (pos : Z) (l : list Z) (cur : option (Z * Z * Z * Z)) (acc : li
   end.
 Definition rle (l : list Z) : list (Z * Z * Z * Z) := rle_aux 0 l None [].
 
-(* one triangular/Fbank case: vertices and rate as rationals *)
-Definition tri_case (fbank analytic : bool) (w : Z) (l r rate : Q) :=
-  let li := left_index w l rate in
-  let ri := right_index w r rate in
+(* one triangular/Fbank case from the two quotients the ceil / int() are applied to *)
+Definition tri_case_q (fbank analytic : bool) (w : Z) (xl xr : Q) :=
+  let li := Qceiling xl in
+  let ri := py_int xr in
   let full := tri_full 0 w li ri analytic false tag in
   let half := tri_full 0 w li ri analytic true tag in
   let tr := tri_trunc 0 fbank w li ri tag in
@@ -319,6 +319,10 @@ Definition tri_case (fbank analytic : bool) (w : Z) (l r rate : Q) :=
      else option_map rle (rebuild_real 0 (fun x => x) w b t)
    | None => None
    end).
+
+(* ... and from vertices and rate as rationals (exact arithmetic) *)
+Definition tri_case (fbank analytic : bool) (w : Z) (l r rate : Q) :=
+  tri_case_q fbank analytic w (inject_Z w * l / rate)%Q (inject_Z w * r / rate)%Q.
 
 (* Image multisets for Gabor/gammatone: V = list Z (the list of unrolled bin
    numbers whose images are summed, in summation order), add = append. *)
